@@ -140,6 +140,9 @@ func (x *explorer) explore(e *Env, r *rand.Rand, l *RunLog, depth int) {
 		if depth > 0 && cut.N == l.First {
 			continue // the state this run started from was already restarted
 		}
+		if depth >= 2 && r.Intn(100) >= 35 {
+			continue // third level (thorough tier): a PRNG third of the states
+		}
 		rr := rand.New(rand.NewSource(r.Int63()))
 		idle := 1 + rr.Intn(3)
 		if depth > 0 {
